@@ -901,17 +901,7 @@ func sizeCoveredByDecode(P *core.Program, sz, um *ssa.Function) (bool, string) {
 	if ei < 0 {
 		return false, "decoder returns no error"
 	}
-	failure := func(r *ssa.Return) bool {
-		switch x := core.ReturnOperand(r, ei).(type) {
-		case *ssa.Call:
-			return true // a wrapped or fresh error, built on a path on which the member decode failed
-		case *ssa.MakeInterface:
-			return true
-		default:
-			_ = x
-		}
-		return false
-	}
+	failure := func(r *ssa.Return) bool { return freshErrorValue(core.ReturnOperand(r, ei)) }
 	for _, mc := range calls {
 		m := mc.path
 		through := func(in ssa.Instruction) bool {
@@ -2076,6 +2066,111 @@ func feedsHeaderPhi(v ssa.Value, hdr *ssa.BasicBlock) bool {
 				return true
 			}
 		}
+	}
+	return false
+}
+
+
+// checkDecodedMembersCounted: for every RTMP packet type, an optional member that Size() counts when it is non-nil is
+// only ever set by the decoder on a path that goes on to decode it from the input. A member created first and decoded
+// "if bytes remain" is counted by Size() although no byte of it was consumed (Size() > bytes decoded, and the packet
+// re-marshals to more than it was decoded from).
+func checkDecodedMembersCounted(c *Ctx, rule string) {
+	P, R := c.P, c.R
+	sp := P.SSAPkgs["rtmp"]
+	if sp == nil {
+		return
+	}
+	n := 0
+	for _, T := range packetTypes(P) {
+		ms := P.SSA.MethodSets.MethodSet(types.NewPointer(T))
+		sSel, uSel := ms.Lookup(sp.Pkg, "Size"), ms.Lookup(sp.Pkg, "UnmarshalBinary")
+		if sSel == nil || uSel == nil {
+			continue
+		}
+		sz, um := P.SSA.MethodValue(sSel), P.SSA.MethodValue(uSel)
+		if sz == nil || um == nil || sz.Blocks == nil || um.Blocks == nil || sz.Synthetic != "" || um.Synthetic != "" {
+			continue
+		}
+		ei := core.ErrResultIndex(um)
+		for _, mc := range memberCalls(sz, "Size") {
+			// only members counted under a nil test (optional ones)
+			optional := false
+			for _, a := range core.GuardAtoms(mc.call.Block()) {
+				if a.Op == "!=" && (a.R == "nil" || strings.HasPrefix(a.R, "nil:")) && trimRoot(a.L) == mc.path {
+					optional = true
+				}
+			}
+			if !optional {
+				continue
+			}
+			n++
+			bad := ""
+			core.EachInstr(um, func(in ssa.Instruction) {
+				st, ok := in.(*ssa.Store)
+				if !ok || core.IsNilConst(st.Val) || trimRoot(core.Path(st.Addr)) != mc.path {
+					return
+				}
+				// from the store on, every path to a return that can be a success decodes the member
+				seen := map[*ssa.BasicBlock]bool{}
+				var walk func(b *ssa.BasicBlock, from int)
+				walk = func(b *ssa.BasicBlock, from int) {
+					if bad != "" {
+						return
+					}
+					for _, x := range b.Instrs[from:] {
+						if call, isCall := x.(*ssa.Call); isCall {
+							for _, u := range memberCallsOf(call, "UnmarshalBinary") {
+								if u == mc.path {
+									return
+								}
+							}
+						}
+						if s2, isSt := x.(*ssa.Store); isSt && core.IsNilConst(s2.Val) && trimRoot(core.Path(s2.Addr)) == mc.path {
+							return
+						}
+						if ret, isRet := x.(*ssa.Return); isRet {
+							if !freshErrorValue(core.ReturnOperand(ret, ei)) {
+								bad = fmt.Sprintf("set at %s, success return at %s", P.InstrPos(st), P.InstrPos(ret))
+							}
+							return
+						}
+					}
+					for _, s2 := range b.Succs {
+						if !seen[s2] {
+							seen[s2] = true
+							walk(s2, 0)
+						}
+					}
+				}
+				walk(st.Block(), core.InstrIndex(st)+1)
+			})
+			R.Check(bad == "", rule, "rtmp|"+T.Obj().Name()+"|"+mc.path+"|counted-only-when-decoded", P.Pos(um.Pos()),
+				"the optional member "+mc.path+" is set by the decoder only on paths that decode it from the input",
+				"the decoder sets the optional member "+mc.path+" and can then succeed without decoding it ("+bad+"): Size() counts it although none of its bytes were consumed, and the packet re-marshals to more bytes than it was decoded from", nil)
+		}
+	}
+	R.Check(n >= 3, rule, "rtmp|packets|optional-members-examined", "-", fmt.Sprintf("%d optional members of packet types examined", n), "fewer optional members than confirmed by hand were found", nil)
+}
+
+
+// freshErrorValue: the operand is an error built on a failure path (this repository's errors.New/Errorf/Wrap*/WithMessage,
+// fmt.Errorf, errors.New, or a concrete error value), as opposed to the result of a decode call that is known to be nil
+// where it is returned.
+func freshErrorValue(v ssa.Value) bool {
+	switch x := v.(type) {
+	case *ssa.MakeInterface:
+		return true
+	case *ssa.Call:
+		f := x.Call.StaticCallee()
+		if f == nil {
+			return false
+		}
+		switch core.FullName(f) {
+		case "fmt.Errorf", "errors.New":
+			return true
+		}
+		return isModuleErrorsFn(f, map[string]bool{"errors.New": true, "errors.Errorf": true, "errors.Wrap": true, "errors.Wrapf": true, "errors.WithMessage": true, "errors.WithStack": true})
 	}
 	return false
 }
